@@ -1037,7 +1037,7 @@ def models(ctx: Ctx) -> list[tuple[pathlib.Path, int, int, bool]]:
                (data / "Library Project" / "Library Project.aird", 4, 30, False),
                (data / "pvmt" / "PVMTTest.aird", 4, 30, False),
                (data / "decl" / "empty_project_52" / "empty_project_52.aird", 4, 30, False),
-               (data / "melodymodel" / "5_2" / "Melody Model Test.aird", 1, 15, True),
+               (data / "melodymodel" / "5_2" / "Melody Model Test.aird", 1, 12, True),
                (data / "pvmt" / "PVMTTest.aird", 2, 30, True),
                (data / "decl" / "empty_project_52" / "empty_project_52.aird", 2, 30, True)]
     return ms
@@ -1082,8 +1082,9 @@ def run(ctx: Ctx) -> Outcome:
             saves = 0
             # directed part 0: edit -> save -> exact inverse edit -> save, before anything else touched the trees
             big = big_model(aird)
-            if fragmented and big and not ctx.thorough:
-                # quick tier, big model, fragmented: a short history (a few operations, a save in the middle and one at the end)
+            if fragmented and big:
+                # big model, fragmented: a short history (a few operations, a save in the middle and one at the end; the long
+                # histories with undo rounds and boundary strings run on the small fragmented models)
                 for k in range(ctx.rng.randint(4, max_ops)):
                     h.step()
                     if k == 1 and not save_and_compare(h, path, capellambse, (label, ctx.seed, hi, "mid"), cases):
